@@ -269,7 +269,7 @@ func TestCheck(t *testing.T) {
 	checkTree(r, "search", all, filters, "all names")
 
 	// (4) random sets
-	nr := r.Pick(3000, 60000)
+	nr := r.Pick(3000, 400000)
 	h.Parallel(nr, 16, func(i int) {
 		rng := r.Rand(fmt.Sprintf("c04-rand-%d", i))
 		alpha := []string{"a", "b", "", "é", "ab", "€x", "B", "0"}[:2+rng.Intn(7)]
